@@ -533,3 +533,12 @@ const _: () = {
         }
     }
 };
+
+#[cfg(ohkami_verif)]
+#[cfg(feature="__rt_native__")]
+impl Request {
+    /// (verification hook) the raw read buffer
+    pub fn __verif_buf(&self) -> &[u8] {
+        &*self.__buf__
+    }
+}
